@@ -191,8 +191,16 @@ func runC04One(cs *vrt.Case) {
 			c04Deviating(cs, r)
 			return
 		}
+		if cs.Idx%12 == 8 {
+			c04Dying(cs, r, false)
+			return
+		}
 		c04Whole(cs, r)
 	case 3, 4:
+		if cs.Idx%12 == 3 {
+			c04Dying(cs, r, true)
+			return
+		}
 		c04Stream(cs, r)
 	default:
 		c04Sha2pc(cs, r)
@@ -322,6 +330,82 @@ func c04Deviating(cs *vrt.Case, r *vrt.Rng) {
 	cs.Count("deviating_requests_served", 1)
 	if w, off, found := otLabelsInClear(t, rec.Sent); found {
 		cs.Violate("C04|whole|ot-wire-label-in-clear", fmt.Sprintf("asked to OT wires [%d,%d) instead of [%d,%d), the garbler (err=%v) handed OT.Send a wire (#%d of the batch) one of whose labels it had already sent in the clear at byte %d (%s)", q.off, q.off+q.cnt, n0, n0+n1, gerr, w, off, yaoField(c, off)), map[string]any{"case": desc})
+	}
+}
+
+// c04Dying: the garbler's entropy source dies part-way through a session (a
+// failing RNG device, an exhausted test vector): the garbler has to stop, and
+// whatever it transmitted before must still not reveal R. A first session with
+// a healthy source of the same seed yields R (key and offset are the first
+// bytes drawn); the second session's source fails after a PRNG number of bytes
+// beyond them. The transcript of the second session - aborted or not - is
+// scanned for R and for pairs differing by R.
+func c04Dying(cs *vrt.Case, r *vrt.Rng, stream bool) {
+	seed := r.U64() | 1
+	fail := 48 + r.Intn(16*40) // after the 32-byte key and the 16-byte offset
+	var R ot.Label
+	var t []byte
+	var desc map[string]any
+	mode := "whole"
+	if !stream {
+		c, what := twoPartyCircuit(cs, r, cs.Idx/6, vrt.Pick(r, []int{10, 80}))
+		if c == nil {
+			return
+		}
+		x, y := r.Big(int(c.Inputs[0].Type.Bits)), r.Big(int(c.Inputs[1].Type.Bits))
+		fail = 48 + r.Intn(16*2*(c.Inputs.Size()+1))
+		otk := r.Intn(2)
+		h := runYao(r, c, x, y, yaoOpts{ot: otk, kind: 2, record: true, stallWin: 30 * time.Second, randSeed: seed})
+		if firstPanic(h.g, h.e) != nil || h.g.err != nil || h.e.err != nil {
+			cs.Inconc("healthy session did not complete (C02's business)")
+			return
+		}
+		var ok bool
+		if R, ok = deltaOf(cs, h.rec.Sent, "whole"); !ok {
+			return
+		}
+		f := runYao(r, c, x, y, yaoOpts{ot: otk, kind: 2, record: true, stallWin: 20 * time.Second, randSeed: seed, randFailAfter: fail})
+		t = f.d.link.Transcript(0)
+		desc = map[string]any{"mode": "whole-circuit, entropy source dies", "circuit": what, "fails_after_bytes": fail, "garbler_error": fmt.Sprint(f.g.err)}
+		if f.g.err == nil && f.g.pan == nil {
+			cs.Count("dying_entropy_sessions_completed_without_error", 1)
+		} else {
+			cs.Count("dying_entropy_sessions_aborted", 1)
+		}
+	} else {
+		mode = "stream"
+		p := c04StreamPrograms[r.Intn(4)]
+		gIn, eIn := p.gIn(r), p.eIn(r)
+		h := runStream(r, p.src, nil, gIn, eIn, yaoOpts{ot: 0, kind: 2, record: true, stallWin: 30 * time.Second, randSeed: seed})
+		if firstPanic(h.g, h.e) != nil || h.g.err != nil || h.e.err != nil {
+			cs.Inconc("healthy streaming session did not complete (C05's business)")
+			return
+		}
+		var ok bool
+		if R, ok = deltaOf(cs, h.rec.Sent, "stream"); !ok {
+			return
+		}
+		f := runStream(r, p.src, nil, gIn, eIn, yaoOpts{ot: 0, kind: 2, record: true, stallWin: 20 * time.Second, randSeed: seed, randFailAfter: fail})
+		t = f.d.link.Transcript(0)
+		desc = map[string]any{"mode": "streaming, entropy source dies", "program": p.src, "fails_after_bytes": fail, "garbler_error": fmt.Sprint(f.g.err)}
+		if f.g.err == nil && f.g.pan == nil {
+			cs.Count("dying_entropy_sessions_completed_without_error", 1)
+		} else {
+			cs.Count("dying_entropy_sessions_aborted", 1)
+		}
+	}
+	cs.SetSample(desc)
+	cs.Evals++
+	cs.Count("sessions_with_dying_entropy", 1)
+	cs.Count("transcript_bytes", int64(len(t)))
+	cs.Keys = append(cs.Keys, vrt.HashBytes(t)^uint64(fail))
+	for _, h := range scanTranscript(t, R) {
+		if h.kind == "offset-itself" {
+			cs.Violate("C04|"+mode+"|R-transmitted|entropy-failure", fmt.Sprintf("after its entropy source failed (%d bytes in) the garbler transmitted its offset R at byte %d", fail, h.off), map[string]any{"case": desc})
+		} else {
+			cs.Violate("C04|"+mode+"|label-pair|entropy-failure", fmt.Sprintf("after its entropy source failed (%d bytes in) the garbler transmitted two values differing by R: bytes %d and %d", fail, h.off, h.alt), map[string]any{"case": desc})
+		}
+		break
 	}
 }
 
